@@ -165,6 +165,9 @@ def write_metafile(meta: dict, metafile: str):
         path to the torrent meta file.
     """
     encoded = pyben.dumps(meta)
+    # the encoder writes some values it has no type for (True, False) as
+    # text no decoder accepts; never replace the metafile with such a file
+    pyben.loads(encoded)
     folder = os.path.dirname(os.path.abspath(metafile))
     tempfd, temppath = tempfile.mkstemp(dir=folder, suffix=".tmp")
     try:
